@@ -120,8 +120,10 @@ func (rs *RelationService) VerifFlush() error {
 }
 
 // VerifAbandon simulates process death: close descriptors, flush nothing.
+// The log's descriptor is closed directly, not through wal.close: whatever a
+// log implementation might still hold in memory dies with the process.
 func (rs *RelationService) VerifAbandon() {
-	rs.wal.close()
+	rs.wal.reader.Close()
 	rs.fs.verifAbandon()
 }
 
